@@ -39,11 +39,22 @@ SPLINE_SY = {
     'all-above': ([45.0, 50.0, 60.0, 90.0], [0.3, 0.2, 0.5, 0.4]),
     'seven-knots': ([-10.0, 5.0, 15.0, 20.0, 25.0, 35.0, 80.0],
                     [0.15, 0.2, 0.3, 0.28, 0.4, 0.5, 0.6]),
+    # knot levels and values that need more than six significant digits
+    'long-digits': ([-1291.725, -183.1234567, -15.7403125, 10.6500001,
+                     38.78, 168.3],
+                    [0.1358123, 0.16710001, 0.2541, 0.29070707, 0.2892,
+                     0.68571234]),
+    # every knot value is within [0.01, 1] but the cubic dips below zero
+    # between 18 and 24 mm: the simulated recession curve is not monotone
+    'overshoot': ([12.0, 18.0, 24.0, 30.0], [0.9, 0.01, 0.01, 0.9]),
 }
 SPLINE_T = {
     'field': ([-291.7, -5.167, 168.3, 1000.0],
               [5.356e-3, 1.002, 6577.0, 8.430e+3], 7.442),
     'two-knots': ([-100.0, 100.0], [0.01, 50.0], 1.5),
+    'long-digits': ([-291.7123456, -5.1671875, 168.3, 1000.0],
+                    [5.3561234e-3, 1.0020001, 6577.0, 8.4301234e+3],
+                    7.4421234),
     'five-knots': ([-50.0, 0.0, 15.0, 25.0, 70.0],
                    [0.02, 0.5, 3.0, 40.0, 900.0], 0.25),
 }
